@@ -18,7 +18,8 @@ func init() {
 		Title: "Read consistency levels behave as documented",
 		Explanation: "C16.a DECIDE: store.IsStaleRead's decision table over {freshness==0, since-contact vs freshness, strict, appendedAt.IsZero, fsmIndex vs commitIndex, (fsmUpdate−appendedAt) vs freshness} — 216 valuations including the boundary (equal) cases — equals the statement's; isStaleRead returns false on the leader and passes last-contact, FSM-update time, appended-at time, FSM index, command commit index, freshness and strict in that order. " +
 			"C16.b DECIDE: the complete decision structure of Store.Query and Store.Request is interpreted for every valuation of {requested level (5), voter, leader, ready, stale, linearizable-wait result (ok / strong-needed / error), apply result (ok / not leader / leadership lost / other), read-write and read-only counts} with every other error condition fixed to success; the sequence of effects (term capture, linearizable wait, raft.Apply with its command type, strong-read-term store, local read) and the returned error are compared with the statement's dispatch: AUTO ⇒ WEAK on voters / NONE otherwise; WEAK ⇒ leader test before the local read; NONE ⇒ staleness test before the local read; LINEARIZABLE ⇒ quorum-verified wait before the local read, STRONG only on ErrStrongReadNeeded; STRONG ⇒ through the log. " +
-			"C16.c CONST: the two clocks the strict staleness test compares are written by fsmApply as the statement means them — fsmUpdateTime is a time.Now() read inside the deferred bookkeeping (after the entry was applied), appendedAtTime is the applied entry's own AppendedAt.",
+			"C16.c CONST: the two clocks the strict staleness test compares are written by fsmApply as the statement means them — fsmUpdateTime is a time.Now() read inside the deferred bookkeeping (after the entry was applied), appendedAtTime is the applied entry's own AppendedAt. " +
+			"C16.d TABLE: the HTTP getters that feed the read request (Level, Freshness, FreshnessStrict, LinearizableTimeout) each read their own request parameter and nothing else.",
 		NotCovered: []string{"timing on live clusters (how stale a follower really is)", "waitForLinearizableRead's internal ordering is C02.a", "hashicorp/raft's LastContact/State semantics (trusted)"},
 		Run:        runC16,
 	})
@@ -266,6 +267,10 @@ func storeEffects(fn *ssa.Function) func(ssa.Instruction) (string, bool) {
 		case *ssa.Store:
 			if t, f, _, ok := an.FieldOf(x.Addr); ok && t == "Command" && f == "Type" {
 				if k, ok := an.ConstInt(x.Val); ok {
+					return fmt.Sprintf("cmd%d", k), true
+				}
+				// the type handed to a helper that builds the command
+				if k, ok := an.ConstInt(an.Unwrap(an.Rz(x.Val))); ok {
 					return fmt.Sprintf("cmd%d", k), true
 				}
 				return "cmd?", true
